@@ -386,6 +386,75 @@ def c19_prefix_chunk(arg):
     return recs
 
 
+_STRUCT = None
+
+
+def structured_cases():
+    """Full-size compressed files in which every image line is exactly one compression unit
+    (one MGE run, one RAT escape triple, one CM3 control byte, two VEF records), so that unit
+    boundaries coincide with line starts.  Swept control byte by control byte."""
+    global _STRUCT
+    if _STRUCT is not None:
+        return _STRUCT
+    import random
+    r = random.Random(777)
+    out = []
+    # MGE: 200 runs of 160
+    hdr, smap = formats.mge_header(r, raw=False, rgb=True)
+    body = bytearray()
+    ctrl = []
+    prev = -1
+    for y in range(200):
+        c = r.getrandbits(8)
+        while c == prev:
+            c = r.getrandbits(8)
+        prev = c
+        ctrl.append(len(body))
+        body += bytes([160, c])
+    body.append(0)
+    out.append(formats.Case("mge", [], hdr + bytes(body), smap + [(51 + c, "ctrl") for c in ctrl] +
+                            [(51 + len(body) - 1, "trailer")], (320, 200), {"structured": "run per line"}))
+    # RAT: 199 escape triples of 160
+    esc = 0x55
+    pal = bytes(r.randint(0, 63) for _ in range(16))
+    body = bytearray()
+    ctrl = []
+    for y in range(199):
+        c = r.choice([v for v in range(256) if v != esc])
+        ctrl.append(len(body) + 1)
+        body += bytes([esc, 160, c])
+    out.append(formats.Case("rat", [], bytes([esc, 1, 0]) + pal + bytes(body),
+                            [(0, "flag"), (1, "flag")] + [(19 + c, "ctrl") for c in ctrl], (320, 199),
+                            {"structured": "triple per line"}))
+    # CM3 (compressed lines only) and squashed VEF from the generators, "rows" payloads
+    for _ in range(200):
+        c3 = formats.gen_cm3(r)
+        if c3.params["praw"] == 0.0 and c3.params["pages"] == 1:
+            out.append(c3)
+            break
+    for _ in range(200):
+        v = formats.gen_vef(r)
+        if v.params["squashed"] and v.params["type"] == 0:
+            # keep only the per-record count bytes
+            first = dict((o, k) for o, k in v.smap)
+            out.append(v)
+            break
+    _STRUCT = out
+    return out
+
+
+def struct_sweep_tasks(tier):
+    tasks = []
+    vals = (0,) if tier == "quick" else QUICK_VALUES
+    for si, c in enumerate(structured_cases()):
+        offs = [o for o, k in c.smap if k == "ctrl"]
+        if tier == "quick":
+            offs = offs[:420]
+        for a in range(0, len(offs), 24):
+            tasks.append(("struct", si, offs[a:a + 24], vals))
+    return tasks
+
+
 FIELD_KINDS = ("magic", "size", "flag", "page")
 QUICK_VALUES = (0, 1, 2, 3, 4, 5, 8, 16, 0x3F, 0x40, 0x7F, 0x80, 0x81, 0xC0, 0xFE, 0xFF)
 
@@ -400,14 +469,18 @@ def field_sweep_tasks(tier):
         vals = QUICK_VALUES if tier == "quick" else tuple(range(256))
         per = 4 if len(c.data) > 2000 else 16
         for a in range(0, len(offs), per):
-            tasks.append((ci, offs[a:a + per], vals))
-    return tasks
+            tasks.append(("min", ci, offs[a:a + per], vals))
+    return tasks + struct_sweep_tasks(tier)
+
+
+def sweep_case(src, ci):
+    return (structured_cases() if src == "struct" else minimal_cases())[ci]
 
 
 def c19_field_chunk(arg):
-    ci, offs, vals = arg
+    src, ci, offs, vals = arg
     warm()
-    case = minimal_cases()[ci]
+    case = sweep_case(src, ci)
     recs = []
     env = Env()
     for o in offs:
@@ -416,7 +489,7 @@ def c19_field_chunk(arg):
                 continue
             plan = [{"kind": "set", "at": o, "val": v}]
             data, dmg, eff, run, verdict, cls = c19_execute(case, plan, env)
-            recs.append({"ci": ci, "k": o, "v": v, "tool": case.tool, "verdict": verdict, "cls": cls,
+            recs.append({"src": src, "ci": ci, "k": o, "v": v, "tool": case.tool, "verdict": verdict, "cls": cls,
                          "site": run.signature_site(), "env": env.key(), "steps": run.steps,
                          "digest": run.digest()})
     return recs
